@@ -1,6 +1,7 @@
 package main
 
 import (
+	"bytes"
 	"encoding/asn1"
 	"encoding/binary"
 	"fmt"
@@ -225,9 +226,30 @@ func init() {
 					if c13Used(a) {
 						ctx.ProcessChallengeToken(c08EarlierChallengeToken())
 					}
-					return outBytes(ctx.ProcessChallengeToken(unhx(a[0])))
+					tok := unhx(a[0])
+					snap := string(tok)
+					res, err := ctx.ProcessChallengeToken(tok)
+					if string(tok) != snap {
+						return "token-modified"
+					}
+					// what the context keeps of the CHALLENGE is what a fresh parse of the same token gives, also after the
+					// AUTHENTICATE has been built from it
+					if err == nil && ctx.NTLMChallenge != nil {
+						if inner, e1 := spnego.ExtractNTLMToken([]byte(snap)); e1 == nil {
+							if c2, e2 := ntlm.ParseChallengeMessage(inner); e2 == nil {
+								k := ctx.NTLMChallenge
+								if k.NegotiateFlags != c2.NegotiateFlags || k.ServerChallenge != c2.ServerChallenge || !bytes.Equal(k.TargetName, c2.TargetName) || !bytes.Equal(k.TargetInfo, c2.TargetInfo) {
+									return "ok stored-challenge-differs-from-a-fresh-parse name=" + hx(k.TargetName) + "/" + hx(c2.TargetName) + " info=" + hx(k.TargetInfo) + "/" + hx(c2.TargetInfo)
+								}
+							}
+						}
+					}
+					return outBytes(res, err)
 				},
 				ReadBack: func(a []string, out string) (m, s []string) {
+					if strings.HasPrefix(out, "ok stored-challenge-differs") || out == "token-modified" {
+						return []string{"-", "-"}, []string{"-", "-", "stored-differs", "none"}
+					}
 					tok, ok := okPayload(out)
 					if !ok {
 						return []string{"-", "-"}, []string{"-", "-", "none", "none"}
@@ -253,12 +275,12 @@ func init() {
 // ---- generators ------------------------------------------------------------------------------------
 
 var c08Names = []string{"", "a", "WORKGROUP", "corp", "Corp.Example", "lab-01", "straße", "école", "домен",
-	"東京", "pc\U0001F600x", "\xff\xfeab", "a\x00b", "ıstanbul", "ǆ", "MiXeD cAsE 123"}
+	"東京", "pc\U0001F600x", "\xff\xfeab", "a\x00b", "ıstanbul", "ǆ", "MiXeD cAsE 123", "a%sb", "100%"}
 
 func c08Name(r *Rng) string {
 	if r.Intn(5) == 0 {
 		n := r.Intn(20)
-		alpha := []rune("abcXYZ019-. éßд東\U0001F600")
+		alpha := []rune("abcXYZ019-.% éßд東\U0001F600")
 		s := make([]rune, n)
 		for i := range s {
 			s[i] = alpha[r.Intn(len(alpha))]
@@ -275,6 +297,28 @@ func c08EarlierChallengeToken() []byte {
 	ch := mkChallenge(0x00000206, []byte{0xA1, 0xA2, 0xA3, 0xA4, 0xA5, 0xA6, 0xA7, 0xA8}, make([]byte, 8), []byte("OLDTARGET"), ti, make([]byte, 8), nil, nil, nil)
 	tok, _ := spnego.CreateNegTokenResp(asn1.Enumerated(1), spnego.NtlmOID, ch)
 	return tok
+}
+
+// the same message with the two payloads in the other order (target information first, target name behind it): the
+// descriptors say where a payload is, MS-NLMP fixes no order
+func mkChallengeTiFirst(flags uint32, sc, res, tn, ti, ver []byte) []byte {
+	b := []byte("NTLMSSP\x00")
+	b = binary.LittleEndian.AppendUint32(b, 2)
+	tiOff := 56
+	tnOff := tiOff + len(ti)
+	b = binary.LittleEndian.AppendUint16(b, uint16(len(tn)))
+	b = binary.LittleEndian.AppendUint16(b, uint16(len(tn)))
+	b = binary.LittleEndian.AppendUint32(b, uint32(tnOff))
+	b = binary.LittleEndian.AppendUint32(b, flags)
+	b = append(b, sc...)
+	b = append(b, res...)
+	b = binary.LittleEndian.AppendUint16(b, uint16(len(ti)))
+	b = binary.LittleEndian.AppendUint16(b, uint16(len(ti)))
+	b = binary.LittleEndian.AppendUint32(b, uint32(tiOff))
+	b = append(b, ver...)
+	b = append(b, ti...)
+	b = append(b, tn...)
+	return b
 }
 
 func mkChallenge(flags uint32, sc, res, tn, ti, ver, g0, g1, g2 []byte) []byte {
@@ -675,6 +719,10 @@ func genC08(r *Rng, tier string) []Case {
 			ver = rp.Bytes(8)
 		}
 		ch := mkChallenge(fl, rp.Bytes(8), make([]byte, 8), stdUTF16LE(c08Name(rp)), ti, ver, nil, nil, nil)
+		if i%3 == 2 {
+			ch = mkChallengeTiFirst(fl|fESS, rp.Bytes(8), make([]byte, 8), stdUTF16LE("TARGET"+c08Name(rp)), ti, ver)
+			fl |= fESS
+		}
 		st := []int{1, 1, 1, 0, 2, 3}[rp.Intn(6)]
 		tok, err := spnego.CreateNegTokenResp(asn1.Enumerated(st), spnego.NtlmOID, ch)
 		if err != nil {
